@@ -181,7 +181,7 @@ def audit(modules):
 
 TIERS = {
     'quick': {'rand': 1200, 'mut_every': 4},
-    'thorough': {'rand': 12000, 'mut_every': 3},
+    'thorough': {'rand': 25000, 'mut_every': 3},
 }
 
 def gen_cases(tier, seed):
@@ -206,7 +206,7 @@ def prepare(tier, seed):
     """returns the prep dict (from cache when the tree, the machinery, the seed and the tier
     are unchanged)"""
     key = hashlib.sha256((repo_hash() + verif_hash() + f'{tier}:{seed}').encode()).hexdigest()[:24]
-    cdir = os.path.join(WORK, 'cache', key)
+    cdir = os.path.join(WORK, 'cache', f'{tier}-{key}')
     pj = os.path.join(cdir, 'prep.json')
     with Lock('prepare'):
         if os.path.exists(pj):
@@ -216,7 +216,7 @@ def prepare(tier, seed):
         if os.path.isdir(cache_root):
             import shutil
             for d in os.listdir(cache_root):
-                if d != key:
+                if d != f'{tier}-{key}' and d.startswith(tier + '-') or '-' not in d:
                     shutil.rmtree(os.path.join(cache_root, d), ignore_errors=True)
         os.makedirs(cdir, exist_ok=True)
         t0 = time.time()
